@@ -126,6 +126,17 @@ def concretise(c, rnd):
         more = rnd.choice(["", f'<rect id="s2" xy="^|h 1" wh="1"/>'])
         anchor = f'<point id="anchor" xy="{q(b["x1"])} {q(b["y1"])}"/>'
         return f"<svg>{first}{pend}{subj}{more}{anchor}</svg>"
+    if f == "prevbox":
+        b = c["ref"]
+        gap = " " + q(c["gap"])
+        first = '<rect id="d1" xy="#z|v 3" wh="1"/>'          # deferred: z comes last
+        if c["refkind"] == "point":
+            mid = f'<point id="r" xy="{q(b["x1"])} {q(b["y1"])}"/>'
+        else:
+            mid = f'<box id="r" x="{q(b["x1"])}" y="{q(b["y1"])}" width="{q(b["x2"] - b["x1"])}" height="{q(b["y2"] - b["y1"])}"/>'
+        subj = f'<rect id="s" xy="^|{c["dir"]}{gap}" wh="#z"/>'       # deferred too (its size)
+        later = f'<rect id="z" x="50" y="-40" width="{q(c["w"])}" height="{q(c["h"])}"/>'
+        return f"<svg>{first}{mid}{subj}{later}</svg>"
     if f == "prevdefer":
         gap = " " + q(c["gap"])
         other = '<rect id="b" x="-30" y="40" width="2" height="2"/>'
